@@ -303,6 +303,9 @@ func (w world) RunCase(t *tape.Tape, st *super.Stats) *super.Violation {
 	if r0.parseErr != nil {
 		// generator produced text the parser rejects: not this property's business
 		inc("gen:parse_rejected")
+		if os.Getenv("VERIF_DEBUG_ERR") == "PARSE" {
+			fmt.Fprintf(os.Stderr, "PARSE-ERR %v\n", r0.parseErr)
+		}
 		if st != nil {
 			st.Seen("parse_rejects", super.Hash(r0.parseErr.Error()[strings.Index(r0.parseErr.Error(), ":")+1:]))
 		}
